@@ -33,7 +33,7 @@ func VerifPersistedNeverRemoved() {
 		_, err := os.Stat(dataPath(i))
 		return err == nil
 	}
-	steps := verif.Bound("steps", 3, 5)
+	steps := verif.Bound("steps", 3, 4)
 	for s := 0; s < steps; s++ {
 		i := verif.Choice("file", len(names))
 		switch verif.Choice("op", 6) {
